@@ -12,7 +12,7 @@ CLAIMED = {
              ref="4/C01", technique="contract-based deductive verification: AST->VC generation over the real source, z3 (unbounded, quantified) + ground counter-models replayed natively"),
  "C04": dict(text="Deductive: Fresh (every integer-like edge id < counter) and existing-edges-kept are invariants/postconditions of every adder and of update_uid_counter on every exit.",
              ref="4/C04", technique="contract-based deductive verification (pyvc + z3), counter-models replayed natively"),
- "C05": dict(text="Deductive: functional postconditions (documented effect, error classes, state unchanged on rejection) of the undirected mutators, discharged by z3; remaining mutators listed as not covered in the evidence.",
+ "C05": dict(text="Deductive: functional postconditions (documented effect, error classes, state unchanged on rejection) of the mutators of the three classes, discharged by z3 (exact effects for the single-element operations and for remove_edges_from / remove_nodes_from; frame-style `only adds` / `only removes` effects for the bulk adders and the in-place helpers whose value computation is abstracted); what is not covered is listed in the evidence.",
              ref="4/C05", technique="contract-based deductive verification (pyvc + z3), counter-models replayed natively"),
 }
 CLAIMED.update({
@@ -41,9 +41,9 @@ CLAIMED.update({
              ref="4/C11", technique="contract-based glue obligations (dataflow on the AST) modulo assumed contracts of json/str/numpy; bounded round trips on real files"),
  "C14": dict(text="Deductive for _plain_bfs and node_connected_component: the returned set is the least set containing the source and closed under the neighbour relation (two loop invariants + one instance of the least-fixpoint induction principle)." + PARTIAL,
              ref="4/C14", technique="contract-based deductive verification (pyvc + z3, loop invariants for BFS); bounded comparison with networkx for paths/clustering/graph builders"),
- "C16": dict(text="Deductive for trivial_hypergraph (exactly the nodes 0..n-1, no edges) on top of add_nodes_from's node-set contract; the random models, decodings and simplicial generators are bounded." + PARTIAL,
-             ref="4/C16", technique="contract-based deductive verification (pyvc + z3) of the deterministic constructor kernel; exhaustive index-decoding tables and seeded generator grid as bounded stand-in"),
- "C19": dict(text="Deductive for subhypergraph (result frozen and two-way consistent, argument unchanged, on every path) by composition of the adders' contracts; the set-theoretic definitions of the derived networks are bounded." + PARTIAL,
+ "C16": dict(text="Deductive for trivial_hypergraph (exactly the nodes 0..n-1, no edges) on top of add_nodes_from's node-set contract, and for the index decoders _index_to_edge_prod / _index_to_edge_partition: their return expressions are translated from the AST into Lean definitions on every run and Lean's kernel checks that decoding has the spec encoder as left (and, for tuples, right) inverse with every digit in range, i.e. the decodings are bijections onto tuples / block products. _index_to_edge_comb, the random models and the simplicial generators are bounded." + PARTIAL,
+             ref="4/C16, 11.6", technique="contract-based deductive verification: pyvc + z3 for the deterministic constructor kernel, AST->Lean 4 definitions with kernel-checked inverse/range theorems for the index decoders; exhaustive decoding tables and seeded generator grid as bounded stand-in"),
+ "C19": dict(text="Deductive for subhypergraph (result frozen and two-way consistent, argument unchanged, on every path) by composition of the adders' contracts, and for Hypergraph.cleanup(connected=False, relabel=False, in_place=True): no singleton edge / no isolated node is left when their removal is requested, proved from the exact effect contracts of remove_edges_from / remove_nodes_from (themselves proved with loop invariants) and the assumed view accessors singletons()/isolates(); copy/dual at invariant level. The set-theoretic definitions of the other derived networks are bounded." + PARTIAL,
              ref="4/C19", technique="contract-based deductive verification (pyvc + z3) by composition of mutator contracts; bounded native oracle for the set-theoretic definitions"),
 })
 NA_REASON = {
